@@ -75,6 +75,16 @@ def cases(rng, tier):
             yield {"op": "C14.unify", "tag": "unify-pair", "a": a, "b": b}
     for a, b, c in itertools.product(kc.UNIVERSE, repeat=3):
         yield {"tag": "unify-triple", "a": a, "b": b, "c": c}
+    # tiny alphabet, exhaustive: every sequence of <= 4 copy/constant assignments over x, y, z
+    _GROUPS.clear()
+    stmts = [[lhs, rhs] for lhs in "xyz" for rhs in (["cf", "1.0"], ["cz", "1j"], ["v", "x"], ["v", "y"], ["v", "z"])
+             if rhs != ["v", lhs]]
+    for ln in (1, 2, 3, 4):
+        for seq in itertools.product(range(len(stmts)), repeat=ln):
+            if ln == 4 and tier == "quick" and len(set(seq)) < 4:
+                continue
+            prog = [["p1", ["assign", stmts[i][0], None, stmts[i][1], []]] for i in seq]
+            yield {"op": "C14.infer", "tag": f"tiny{ln}", "src": prog, "funcs": [], "group": sorted(seq)}
     n = 400 if tier == "quick" else 8000
     for i in range(n):
         prog = kc.rand_program(rng)
@@ -120,6 +130,9 @@ def normalise(out):
     return out
 
 
+_GROUPS = {}
+
+
 def defined(r):
     return "ok" in r
 
@@ -138,6 +151,15 @@ def oracle(case, out):
         l, r = out["left"], out["right"]
         if defined(l) != defined(r) or (defined(l) and l["ok"] != r["ok"]):
             return {"what": f"unify not associative on ({case['a']}, {case['b']}, {case['c']}): {l} vs {r}", "sig": "assoc"}
+        return None
+    if "group" in case:
+        key = tuple(case["group"])
+        mine = out.get("ok", "no-table")
+        if key not in _GROUPS:
+            _GROUPS[key] = (mine, case["src"])
+        elif _GROUPS[key][0] != mine:
+            return {"what": f"kind table depends on statement order: {_GROUPS[key][1]} -> {_GROUPS[key][0]}, "
+                            f"{case['src']} -> {mine}", "sig": "order", "printed": bool(out.get("printed"))}
         return None
     if "perm_tables" in out:
         # the property speaks about the table produced: orders on which inference fails produce none;
@@ -160,7 +182,7 @@ def nontrivial(case, out):
 
 
 def shrink(case, still_fails):
-    if case.get("tag") not in ("infer",):
+    if case.get("tag") not in ("infer",) or "perms" not in case:
         return case
     cur = case
     changed = True
